@@ -10,6 +10,7 @@ import (
 
 	"github.com/youchainhq/go-youchain/common"
 	"github.com/youchainhq/go-youchain/common/hexutil"
+	"github.com/youchainhq/go-youchain/core/types"
 	"github.com/youchainhq/go-youchain/params"
 	"github.com/youchainhq/go-youchain/trie"
 	"github.com/youchainhq/go-youchain/youdb"
@@ -44,7 +45,7 @@ func (zzDB) CopyTrie(t Trie) Trie {
 func (zzDB) ContractCode(a, h common.Hash) ([]byte, error)  { return nil, nil }
 func (zzDB) ContractCodeSize(a, h common.Hash) (int, error) { return 0, nil }
 func (zzDB) DelegationBytes(h common.Hash) ([]byte, error)  { return nil, errors.New("not found") }
-func (zzDB) TrieDB() *trie.Database                         { return nil }
+func (zzDB) TrieDB() *trie.Database                         { return new(trie.Database) }
 
 func zzNewState() *StateDB {
 	s, err := New(common.Hash{}, common.Hash{}, common.Hash{}, zzDB{})
@@ -136,3 +137,136 @@ func zzValState() (*StateDB, common.Address) {
 	return s, d
 }
 
+
+// ---- observers shared by C09 / C10 ----
+
+type zzC09Obs struct {
+	bal, dlgBal    [2]*big.Int
+	nonce          [2]uint64
+	exist, suicide [2]bool
+	code           [2][]byte
+	slot           [2]common.Hash
+	refund         uint64
+	nlogs          int
+	preimg         int
+}
+
+func zzC09Observe(s *StateDB, key common.Hash) zzC09Obs {
+	var o zzC09Obs
+	for i := 0; i < 2; i++ {
+		a := zzAddr(i)
+		o.bal[i] = new(big.Int).Set(s.GetBalance(a))
+		o.nonce[i] = s.GetNonce(a)
+		o.exist[i] = s.Exist(a)
+		o.suicide[i] = s.HasSuicided(a)
+		o.code[i] = append([]byte(nil), s.GetCode(a)...)
+		o.slot[i] = s.GetState(a, key)
+	}
+	o.refund = s.GetRefund()
+	o.nlogs = len(s.Logs())
+	o.preimg = len(s.Preimages())
+	return o
+}
+
+func zzC09Same(x, y zzC09Obs) bool {
+	ok := x.refund == y.refund && x.nlogs == y.nlogs && x.preimg == y.preimg
+	for i := 0; i < 2; i++ {
+		ok = ok && x.bal[i].Cmp(y.bal[i]) == 0 && x.nonce[i] == y.nonce[i] && x.exist[i] == y.exist[i] &&
+			x.suicide[i] == y.suicide[i] && x.slot[i] == y.slot[i] && len(x.code[i]) == len(y.code[i])
+		if len(x.code[i]) == len(y.code[i]) {
+			for j := range x.code[i] {
+				ok = ok && x.code[i][j] == y.code[i][j]
+			}
+		}
+	}
+	return ok
+}
+
+
+type zzC09ValObs struct {
+	present                             bool
+	role                                uint8
+	status                              uint8
+	token, stake, selfToken, selfStake  *big.Int
+	ndlg                                int
+	dlgToken, dlgStake                  *big.Int // of the harness delegator, if listed first
+	dlgListed                           bool
+}
+
+type zzC09VObs struct {
+	v          [4]zzC09ValObs
+	stats      [6][4]*big.Int
+	counts     [6][2]uint64
+	qlen       int
+	qnonce     [3]uint64
+	dBal       *big.Int
+	dCount     int
+	indexLen   int
+}
+
+func zzC09ObserveVal(s *StateDB, d common.Address) zzC09VObs {
+	var o zzC09VObs
+	for i := 1; i <= 3; i++ {
+		v := s.GetValidatorByMainAddr(zzValAddr(i))
+		if v == nil {
+			continue
+		}
+		vo := zzC09ValObs{present: true, role: uint8(v.Role), status: v.Status, token: new(big.Int).Set(v.Token), stake: new(big.Int).Set(v.Stake),
+			selfToken: new(big.Int).Set(v.SelfToken), selfStake: new(big.Int).Set(v.SelfStake), ndlg: len(v.Delegations)}
+		if len(v.Delegations) > 0 && v.Delegations[0] != nil {
+			vo.dlgListed = v.Delegations[0].Delegator == d
+			vo.dlgToken = new(big.Int).Set(v.Delegations[0].Token)
+			vo.dlgStake = new(big.Int).Set(v.Delegations[0].Stake)
+		}
+		o.v[i] = vo
+	}
+	stat, _ := s.GetValidatorsStat()
+	ks := []*ValKindStat{stat.GetByRole(params.RoleChancellor), stat.GetByRole(params.RoleSenator), stat.GetByRole(params.RoleHouse),
+		stat.GetByKind(params.KindValidator), stat.GetByKind(params.KindChamber), stat.GetByKind(params.KindHouse)}
+	for i, k := range ks {
+		o.stats[i] = [4]*big.Int{k.GetOnlineStake(), k.GetOnlineToken(), k.GetOfflineStake(), k.GetOfflineToken()}
+		o.counts[i] = [2]uint64{k.GetCount(), k.GetOfflineCount()}
+	}
+	q := s.GetWithdrawQueue()
+	o.qlen = q.Len()
+	for i := 0; i < q.Len() && i < 3; i++ {
+		o.qnonce[i] = q.Records[i].Nonce
+	}
+	if obj := s.getStateObject(d); obj != nil {
+		o.dBal = new(big.Int).Set(obj.DelegationBalance())
+		o.dCount = obj.GetDelegationsCount()
+	}
+	o.indexLen = len(s.validatorIndex.List())
+	return o
+}
+
+func zzC09BigSame(a, b *big.Int) bool {
+	if a == nil || b == nil {
+		return a == nil && b == nil
+	}
+	return a.Cmp(b) == 0
+}
+
+func zzC09SameVal(x, y zzC09VObs) bool {
+	var oks []bool
+	for i := 1; i <= 3; i++ {
+		a, b := x.v[i], y.v[i]
+		oks = append(oks, a.present == b.present)
+		if a.present && b.present {
+			oks = append(oks, a.role == b.role, a.status == b.status, zzC09BigSame(a.token, b.token), zzC09BigSame(a.stake, b.stake),
+				zzC09BigSame(a.selfToken, b.selfToken), zzC09BigSame(a.selfStake, b.selfStake), a.ndlg == b.ndlg,
+				a.dlgListed == b.dlgListed, zzC09BigSame(a.dlgToken, b.dlgToken), zzC09BigSame(a.dlgStake, b.dlgStake))
+		}
+	}
+	for i := range x.stats {
+		for j := range x.stats[i] {
+			oks = append(oks, zzC09BigSame(x.stats[i][j], y.stats[i][j]))
+		}
+		oks = append(oks, x.counts[i] == y.counts[i])
+	}
+	oks = append(oks, x.qlen == y.qlen, x.qnonce == y.qnonce, zzC09BigSame(x.dBal, y.dBal), x.dCount == y.dCount, x.indexLen == y.indexLen)
+	return zzverif.All(oks...)
+}
+
+
+var _ = types.Log{}
